@@ -61,8 +61,12 @@ ASSUMPTIONS = [
 # --------------------------------------------------------------------------
 # chains and request catalogues (single source of truth: TLC constant, driver input, Props observable)
 # --------------------------------------------------------------------------
-def tx(i, nout, *ins):
-    return {"id": i, "nout": nout, "ins": [list(x) for x in ins]}
+def tx(i, nout, *ins, scr=None):
+    """scr: script id of every output (default: a script of its own per output, id*10 + index); outputs
+    with the same id pay to the same script (address re-use)."""
+    scr = list(scr) if scr is not None else [i * 10 + k for k in range(nout)]
+    assert len(scr) == nout and all(x > 0 for x in scr)
+    return {"id": i, "nout": nout, "ins": [list(x) for x in ins], "scr": scr}
 
 
 # tx ids: 1 = A (two outputs), 2 = B, >= 3 spenders; 9 = a transaction that is not in the chain
@@ -99,10 +103,31 @@ CH2S = [  # 2 heights: one start block creating two multi-output transactions
 CAT2S = [(1, 0, 1), (1, 1, 1), (2, 0, 1), (2, 1, 1), (2, 0, 2), (1, 2, 1)]
 
 
+# address re-use: S is one script several outputs pay to
+S = 900
+CHR = [  # 4 heights: three outputs (two of one transaction, one of another) pay to the same script
+    [tx(1, 2, scr=[S, S]), tx(2, 1, scr=[S])],    # h1 creates A:0, A:1 and B:0, all paying to S
+    [tx(3, 1, (1, 0))],                           # h2 spends A:0 (the earlier spend)
+    [tx(4, 1, (9, 0), scr=[S])],                  # h3 only creates one more output paying to S (nobody asks for it)
+    [tx(5, 1, (9, 1), (2, 0))],                   # h4 spends B:0 (input 1), nothing else; A:1 is never spent
+]
+CATR = [(1, 0, 1), (1, 1, 1), (2, 0, 1), (2, 0, 3), (1, 1, 2), (1, 0, 3), (2, 0, 5)]
+
+CHR2 = [  # 4 heights: the shared script across transactions of different blocks, create + spend of it in one block
+    [tx(1, 2, scr=[S, 11])],                      # h1 creates A:0 (S) and A:1 (own script)
+    [tx(2, 2, scr=[S, S]), tx(3, 1, (1, 0))],     # h2 creates B:0, B:1 (both S) and spends A:0 (S)
+    [tx(4, 1, (9, 0), (2, 1))],                   # h3 spends B:1 (input 1)
+    [tx(5, 1, (1, 1), scr=[S])],                  # h4 spends A:1 (own script) and creates another S output; B:0 never spent
+]
+CATR2 = [(1, 0, 1), (1, 1, 1), (2, 0, 2), (2, 1, 2), (2, 1, 1), (2, 1, 3), (2, 0, 1)]
+
+
 def tla_chain(ch):
     def t(x):
         ins = ", ".join("<<%d, %d>>" % (a, b) for a, b in x["ins"])
-        return "[id |-> %d, nout |-> %d, ins |-> <<%s>>]" % (x["id"], x["nout"], ins)
+        scr = x.get("scr") or [x["id"] * 10 + k for k in range(x["nout"])]
+        return "[id |-> %d, nout |-> %d, ins |-> <<%s>>, scr |-> <<%s>>]" % (
+            x["id"], x["nout"], ins, ", ".join(str(v) for v in scr))
     return "<<" + ", ".join("<<" + ", ".join(t(x) for x in blk) + ">>" for blk in ch) + ">>"
 
 
@@ -116,8 +141,11 @@ def random_chain(rng, H):
     ch = [[] for _ in range(H)]
     ha = rng.randrange(H)
     hb = rng.randrange(H)
-    ch[ha].append(tx(1, 2))
-    ch[hb].append(tx(2, 1))
+    # address re-use in two of three random chains: B:0 pays to the script of A:1, or both outputs of A
+    # and B:0 pay to one script
+    reuse = rng.choice([0, 1, 2])
+    ch[ha].append(tx(1, 2, scr=[S, S] if reuse == 2 else None))
+    ch[hb].append(tx(2, 1, scr=[11] if reuse == 1 else [S] if reuse == 2 else None))
     nid = 3
     spends = []
     for op, hc in (((1, 0), ha), ((1, 1), ha), ((2, 0), hb)):
@@ -163,7 +191,13 @@ def config(tier, seed):
                 dict(name="q3g", chains=[CH3], cat=[(1, 0, 1), (1, 1, 1), (1, 1, 2), (2, 0, 2), (1, 0, 3)],
                      best0s="{1}", MaxReq=2, MaxFail=0, AllowStop=False, FalsePos=False, free=500),
                 dict(name="q5g", chains=[CH5], cat=[(1, 0, 1), (1, 1, 1), (1, 1, 5), (2, 0, 4)],
-                     best0s="{2}", MaxReq=2, MaxFail=0, AllowStop=False, FalsePos=False, free=500)]
+                     best0s="{2}", MaxReq=2, MaxFail=0, AllowStop=False, FalsePos=False, free=500),
+                # address re-use: three requested outputs (two of one transaction, one of another) pay
+                # to ONE script; one is spent early (in a block that is nobody's start block), one late
+                # (in a block that spends nothing else), one never; a block in between matches the watch
+                # list only because it creates one more output with that script
+                dict(name="qr", chains=[CHR], cat=CATR[:5], best0s="{3, 4}", MaxReq=2, MaxFail=0,
+                     AllowStop=False, FalsePos=False, free=500)]
     rc, rcat = random_chain(rng, 4)
     return [
         dict(name="t3", chains=[CH3], cat=CAT3[:7], best0s="{2, 3}", MaxReq=3, MaxFail=1,
@@ -180,6 +214,11 @@ def config(tier, seed):
              AllowStop=False, FalsePos=False, free=3000),
         dict(name="rnd", chains=[rc], cat=rcat, best0s="{3, 4}", MaxReq=2, MaxFail=1,
              AllowStop=True, FalsePos=False, free=3000),
+        # address re-use (see qr): both chains, three requests / a failing or stale answer and false positives
+        dict(name="tr", chains=[CHR], cat=CATR, best0s="{2, 4}", MaxReq=3, MaxFail=0,
+             AllowStop=False, FalsePos=False, free=3000),
+        dict(name="tr2", chains=[CHR2, CHR], cat=CATR2, best0s="{2, 3, 4}", MaxReq=2, MaxFail=1,
+             AllowStop=True, FalsePos=True, free=3000),
     ]
 
 
@@ -437,7 +476,8 @@ def run(prop_id, tier, seed, replay=None):
             chains = d["trace"].get("chains")
             if not chains:
                 raise core.MachineryError("replay file carries no chain table")
-            gen = chains_module([[[dict(id=t["id"], nout=t["nout"], ins=[tuple(i) for i in t["ins"]])
+            gen = chains_module([[[dict(id=t["id"], nout=t["nout"], ins=[tuple(i) for i in t["ins"]],
+                                        scr=t.get("scr"))
                                    for t in blk] for blk in ch] for ch in chains], os.path.join(sc, "gen-replay"))
             pf = os.path.join(sc, "paths.ndjson")
             family.paths_from_replay(replay, pf)
